@@ -463,6 +463,8 @@ def signature_wiring(ctx, R, rule):
     sig_params = [l["i"] for l in bs.locals[1:bs.arg_count + 1] if l["ty"].replace(" ", "").startswith(SIG_TY)]
     aggs = list(pat.aggregates(bs, "SampleGenerator"))
     if len(sig_params) != 1 or not aggs:
+        from ..roles import want, builds_adt
+        want(builds_adt("SampleGenerator"))
         return ctx.lost(rule, "signature parameter / SampleGenerator aggregate in build_sampler (%d, %d)" % (len(sig_params), len(aggs)), bs.path)
     sp_ = sig_params[0]
     field = None
